@@ -111,19 +111,21 @@ Section P.
           destruct (struct_fields t) eqn:St, (vfields v) eqn:Vf; try discriminate.
           -- apply vfields_struct in Vf as (n & s & -> & ->). destruct t; cbn in St; try discriminate; reflexivity.
           -- inversion H. congruence.
-        * destruct (struct_fields t) eqn:St; [|discriminate]. inversion H as [Hf].
-          right. left. destruct t; cbn in St; try discriminate; inversion St; subst l; cbn in Hf;
-            (destruct vs as [|? ?]; [|discriminate]); inversion Hf as [[Hu Hs]];
-            apply vsig_u in Hu as [n ->]; apply vsig_s in Hs as [s ->]; exists t; eauto; fail.
-          all: destruct t; cbn in St; try discriminate.
+        * destruct (struct_fields t) eqn:St; [|discriminate]. inversion H as [Hf]. clear H.
+          assert (l = [B "u"; B "s"]) as -> by (destruct t; cbn in St; try discriminate; now inversion St).
+          cbn in Hf. destruct vs as [|? ?]; [|discriminate]. inversion Hf as [[Hu Hs]].
+          symmetry in Hu, Hs. apply vsig_u in Hu as [n ->]. apply vsig_s in Hs as [s ->].
+          right. left. exists t, n, s. repeat split; congruence.
       + unfold sg_of_ty in H. destruct (struct_fields t) as [fs|] eqn:St; [|discriminate].
-        destruct t; cbn in St; try discriminate; inversion St; subst fs; discriminate.
+        assert (fs = [B "u"; B "s"]) as -> by (destruct t; cbn in St; try discriminate; now inversion St).
+        discriminate.
     - (* several declared arguments *)
-      unfold dyn_sig_ok, sg_of_args, sg_of_tys in H. apply orb_true_iff in H as [H|H]; [|discriminate].
+      unfold dyn_sig_ok, sg_of_args, sg_of_tys in H. apply orb_true_iff in H as [H|H].
+      2:{ destruct ts; discriminate. }
       apply sg_eqb_eq in H. destruct args as [|v [|v2 vs]]; cbn [sg_of_vals] in H; try discriminate.
       + destruct (vfields v) eqn:Vf; [|discriminate]. apply vfields_struct in Vf as (n & s & -> & ->).
-        inversion H as [Hm]. right. right. exists n, s. rewrite E. cbn. split; [congruence|reflexivity].
-      + inversion H as [Hm]. left. apply Tm. cbn in *. congruence.
+        right. right. exists n, s. split; [congruence|reflexivity].
+      + left. apply Tm. congruence.
   Qed.
 
   (* ================================================================ the main theorem: routing and replies *)
@@ -156,10 +158,8 @@ Section P.
     (forall t, o = OSingle t -> struct_fields t = None) -> wire_out o outs = outs.
   Proof.
     intros Ht Hs. destruct o as [|t|ts]; cbn [wire_out]; try reflexivity.
-    - destruct outs; reflexivity.
-    - cbn in Ht. inversion Ht as [|v t' r r' Hv Hr]; subst. inversion Hr; subst.
-      pose proof (has_ty_nonstruct _ _ Hv (Hs t eq_refl)) as K. destruct v; try reflexivity. discriminate.
-    - destruct outs as [|v [|? ?]]; try reflexivity. destruct v; reflexivity.
+    cbn in Ht. inversion Ht as [|v t' r r' Hv Hr]; subst. inversion Hr; subst.
+    pose proof (has_ty_nonstruct _ _ Hv (Hs t eq_refl)) as K. destruct v; try reflexivity. discriminate.
   Qed.
 
   Lemma std_methods_async d m md :
@@ -199,24 +199,17 @@ Section P.
       apply find_inst_in in Ef as [Hin Hname].
       pose proof (find_method_name _ _ _ Fm) as [Hmn Hmin].
       destruct (Hres _ _ _ En Hin md Hmin) as [Hfall Htyped].
-      assert (Hrun : (if md_mut md then match gen_call_mut (in_desc i) member with
-                                        | Some md0 => run_method bh i md0 c
-                                        | None => reply_only (RErr EUnknownMethod None) end
-                      else run_method bh i md c) = run_method bh i md c).
-      { destruct (md_mut md) eqn:Mm; [|reflexivity]. now rewrite (gen_call_mut_same _ _ _ Fm Mm). }
-      destruct (md_mut md); rewrite Hrun; clear Hrun.
+      destruct (md_mut md) eqn:Mm; [rewrite (gen_call_mut_same _ _ _ Fm Mm)|].
       all: unfold run_method; rewrite (types_match_args_ok _ _ Tm), (types_match_unpack _ _ Tm);
-        unfold iname; rewrite <- Hmn;
+        unfold iname;
         destruct (bh_method bh (id_name (in_desc i)) (md_name md) (c_args c)) as [outs|e m] eqn:Eb;
         unfold meets; cbn [fst snd x_reply x_log x_signals x_root ef_log ef_signals finish];
         try (rewrite (wire_out_id (md_out md) outs (Htyped _ _ Eb));
              [|intros t Ho; rewrite Ho in Hcl; destruct (struct_fields t); [discriminate|reflexivity]]);
         try (destruct (md_fall md) eqn:Fl; [|exfalso; exact (Hfall eq_refl _ _ _ Eb)]);
         repeat split; unfold declared_out;
-        [apply (flagged_meets_ret (c_noreply c) outs c); reflexivity
-        |apply (flagged_meets_err (c_noreply c) e m c); reflexivity
-        |apply (flagged_meets_ret (c_noreply c) outs c); reflexivity
-        |apply (flagged_meets_err (c_noreply c) e m c); reflexivity].
+        first [apply (flagged_meets_ret (c_noreply c) outs c); reflexivity
+              |apply (flagged_meets_err (c_noreply c) e m c); reflexivity].
     - (* a standard interface, or none *)
       destruct (find (fun d => lbeq (id_name d) iface) std_ifaces) as [d|] eqn:Fs.
       2:{ inversion Hsp; subst x. unfold meets. cbn. repeat split. apply flagged_meets_err_sent. }
@@ -229,15 +222,14 @@ Section P.
       2:{ exfalso. destruct (md_ins md); [discriminate|]. destruct (args_ok md (c_args c)); discriminate. }
       rewrite andb_true_r in Hpc.
       unfold std_call. rewrite (std_methods_async _ _ _ Hd Fm), (types_match_args_ok _ _ Tm).
-      unfold std_expect in Hsp. rewrite Hpc in Hsp.
+      unfold std_expect in Hsp.
       pose proof (find_method_name _ _ _ Fm) as [Hmn _].
       destruct (lbeq (id_name d) peer_name) eqn:Ipeer.
-      + rewrite Hmn in Hsp. destruct (lbeq member (B "Ping")); inversion Hsp; subst x; unfold meets; cbn; repeat split.
-        * apply (flagged_meets_ret (c_noreply c) [] c); reflexivity.
-        * apply (flagged_meets_retany (c_noreply c) (B "s") [VS machine_id] c); reflexivity.
+      + rewrite Hmn in Hsp. destruct (lbeq member (B "Ping")); inversion Hsp; subst x; unfold meets; cbn; repeat split;
+          unfold flagged; destruct (c_noreply c); cbn; eauto.
       + destruct (lbeq (id_name d) intro_name) eqn:Iintro.
-        * inversion Hsp; subst x; unfold meets; cbn; repeat split.
-          apply (flagged_meets_retany (c_noreply c) (B "s") [VS (introspect_text n)] c); reflexivity.
+        * inversion Hsp; subst x; unfold meets; cbn; repeat split;
+            unfold flagged; destruct (c_noreply c); cbn; eauto.
         * exfalso. destruct Hd as [<-|[<-|[<-|[]]]]; cbn in Ipeer, Iintro, Hpc; discriminate.
   Qed.
 
@@ -268,18 +260,29 @@ Section P.
     destruct (readable p); [|exact IH]. destruct (run_getter bh i p); cbn; intros [H|H]; try discriminate; auto.
   Qed.
 
+  Lemma gen_get_no_method i pname lg r t n a : gen_get bh i pname = Some (lg, r) -> ~ In (LMethod t n a) lg.
+  Proof.
+    unfold gen_get. destruct (getter_of (in_desc i) pname); [|discriminate]. intro H. inversion H; subst.
+    cbn. intuition discriminate.
+  Qed.
+
+  Lemma do_set_no_method path i p sent t n a : ~ In (LMethod t n a) (sr_log (do_set bh path i p sent)).
+  Proof. unfold do_set. case_all; cbn; intuition discriminate. Qed.
+
   Lemma props_no_method root path iface pname sent t n a :
     ~ In (LMethod t n a) (pr_log (props_get bh root path iface pname)) /\
     ~ In (LMethod t n a) (pr_log (props_get_all bh root path iface)) /\
     ~ In (LMethod t n a) (pr_log (props_set bh root path iface pname sent)).
   Proof.
-    repeat split.
-    - unfold props_get, gen_get. case_all; cbn; try tauto. all: inversion Heqo; subst; cbn; intros [H|[]]; discriminate.
-    - unfold props_get_all, gen_get_all. case_all; cbn; try tauto.
-      pose proof (gen_get_all_aux_no_method i (id_props (in_desc i)) t n a) as K. rewrite Heqp in K. exact K.
-    - unfold props_set, do_set. case_all; cbn; try tauto.
-      all: try (intros [H|[]]; discriminate).
-      all: try (intros [H|[H|[]]]; discriminate).
+    split; [|split].
+    - unfold props_get. destruct (lookup_iface root path iface); cbn; try tauto.
+      destruct (gen_get bh i pname) as [[lg r]|] eqn:E; cbn; [|tauto]. eapply gen_get_no_method; eauto.
+    - unfold props_get_all, gen_get_all. destruct (lookup_iface root path iface); cbn; try tauto.
+      pose proof (gen_get_all_aux_no_method i (id_props (in_desc i)) t n a) as K.
+      destruct (gen_get_all_aux bh i (id_props (in_desc i))). exact K.
+    - unfold props_set. destruct (lookup_iface root path iface); cbn; try tauto.
+      destruct (gen_set (in_desc i) pname); cbn; try tauto; [|apply do_set_no_method].
+      destruct (gen_set_mut (in_desc i) pname); cbn; try tauto. apply do_set_no_method.
   Qed.
 
   Theorem handler_runs_iff root c :
@@ -302,26 +305,13 @@ Section P.
     destruct (find_inst n iface) as [i|] eqn:Ef.
     - cbn [fst found_desc]. unfold user_call, gen_call.
       destruct (find_method (in_desc i) member) as [md|] eqn:Fm; [|cbn; tauto].
-      intros Hin Hcl.
-      assert (Hrun : (if md_mut md then match gen_call_mut (in_desc i) member with
-                                        | Some md0 => run_method bh i md0 c
-                                        | None => reply_only (RErr EUnknownMethod None) end
-                      else run_method bh i md c) = run_method bh i md c).
-      { destruct (md_mut md) eqn:Mm; [|reflexivity]. now rewrite (gen_call_mut_same _ _ _ Fm Mm). }
-      assert (Hin' : In (LMethod t nm a) (ef_log (run_method bh i md c))).
-      { destruct (md_mut md); rewrite Hrun in Hin; exact Hin. }
-      assert (Hlog : ef_log (if md_mut md then match gen_call_mut (in_desc i) member with
-                                        | Some md0 => run_method bh i md0 c
-                                        | None => reply_only (RErr EUnknownMethod None) end
-                      else run_method bh i md c) = ef_log (run_method bh i md c)) by now rewrite Hrun.
-      clear Hin. unfold run_method in Hin'.
-      destruct (args_ok md (c_args c)) eqn:Ea; [|cbn in Hin'; tauto].
-      destruct (types_match md (c_args c)) eqn:Tm.
-      + exists path, iface, member, n, i, md. repeat split; auto.
-        destruct (md_mut md); rewrite Hlog; unfold run_method; rewrite Ea, (types_match_unpack _ _ Tm);
-          pose proof (find_method_name _ _ _ Fm) as [-> _];
-          destruct (bh_method bh (iname i) member (c_args c)); reflexivity.
-      + exfalso. destruct (md_ins md) eqn:Ins; [exact Hcl|]. rewrite Ea in Hcl. exact Hcl.
+      pose proof (find_method_name _ _ _ Fm) as [Hmn _].
+      destruct (md_mut md) eqn:Mm; [rewrite (gen_call_mut_same _ _ _ Fm Mm)|].
+      all: unfold run_method; destruct (args_ok md (c_args c)) eqn:Ea; [|cbn; tauto];
+        intros Hin Hcl; destruct (types_match md (c_args c)) eqn:Tm;
+        [exists path, iface, member, n, i, md; repeat split; auto;
+         rewrite (types_match_unpack _ _ Tm), Hmn; destruct (bh_method bh (iname i) member (c_args c)); reflexivity
+        |exfalso; destruct (md_ins md); cbn in Hcl; exact Hcl].
     - destruct (find (fun d => lbeq (id_name d) iface) std_ifaces) as [d|] eqn:Fs; [|cbn; tauto].
       intros Hin _. exfalso. revert Hin. unfold std_call, of_presult.
       destruct (props_no_method root path iface member (VU 0) t nm a) as (_ & _ & _).
